@@ -263,11 +263,27 @@ def run(res):
             exp.update(wl.expected_with_fill(c2, m))
         order = list(tops)
         rng.shuffle(order)
-        rd = digital_rf.DigitalRFReader(order)
+        empty_at = None
+        if rng.random() < 0.5:
+            # a further directory whose channel exists (drf_properties.h5) but holds no data file yet -- a
+            # recording that has just been started; it contributes nothing and must not disturb anything
+            et = os.path.join(work, "t%d_empty" % i)
+            os.makedirs(os.path.join(et, "ch"))
+            wl.make_writer(c2, os.path.join(et, "ch")).close()
+            empty_at = rng.randrange(0, len(order) + 1)
+            order.insert(empty_at, et)
+            res.count("multidir-with-empty-channel-directory")
+        hist = {"cfg": cfg.as_dict(), "period_owner": owner, "dir_order": [os.path.basename(t) for t in order]}
         res.case(("multidir", cfg.key(), tuple(owner), tuple(order)))
         res.count("multidir")
-        hist = {"cfg": cfg.as_dict(), "period_owner": owner, "dir_order": [os.path.basename(t) for t in order]}
-        b = rd.get_bounds("ch")
+        try:
+            rd = digital_rf.DigitalRFReader(order)
+            b = rd.get_bounds("ch")
+        except Exception as e:  # noqa
+            res.violation("multidir-reader-fails", "a reader over several top-level directories fails (one of them holds the channel "
+                          "but no data file yet)" if empty_at is not None else "a reader over several top-level directories fails",
+                          hist, "bounds of the union", repr(e)[:200])
+            continue
         if (b[0], b[1]) != (min(exp), max(exp)):
             res.violation("multidir-bounds", "bounds over several top-level directories are not those of the union", hist, [min(exp), max(exp)], list(b))
         got = rd.read(min(exp), max(exp), "ch")
